@@ -46,16 +46,21 @@ def run(ctx):
     if thorough:
         ctx.tlc_expect_ok("treeorder", "TreeLoad", "TreeLoad_mc_t.cfg", coverage=True, timeout=5400)
         ctx.tlc_expect_ok("treeorder", "TreeLoad", "TreeLoad_mc4_t.cfg", timeout=5400)
+        ctx.tlc_expect_ok("treeorder", "TreeLoad", "TreeLoad_mc3r.cfg", timeout=1200)
     else:
         ctx.tlc_expect_ok("treeorder", "TreeLoad", "TreeLoad_mc.cfg", timeout=1200)
-        ctx.tlc_expect_ok("treeorder", "TreeLoad", "TreeLoad_mc3.cfg", timeout=1200)
+        # three replicas: a responder that was rebuilt back to an older snapshot, a requester that still has the newer one
+        ctx.tlc_expect_ok("treeorder", "TreeLoad", "TreeLoad_mc3r.cfg", timeout=1200)
     # 2. spec -> code: predicted plans vs. the real loader / stream handler / requester
     if thorough:
         emit_and_replay(ctx, "TreeLoadGen_q.cfg", test_env={"VERIF_APPLY_EVERY": 2, "VERIF_HANDLER_EVERY": 250})
+        emit_and_replay(ctx, "TreeLoadGen_3r_t.cfg", test_env={"VERIF_APPLY_EVERY": 4, "VERIF_HANDLER_EVERY": 2000})
         emit_and_replay(ctx, "TreeLoadGen_sim.cfg", simulate=120, depth=9, timeout=3000,
                         test_env={"VERIF_APPLY_EVERY": 3, "VERIF_HANDLER_EVERY": 400})
     else:
         emit_and_replay(ctx, "TreeLoadGen_q.cfg", test_env={"VERIF_APPLY_EVERY": 9, "VERIF_HANDLER_EVERY": 1400})
+        # states in which a tree holds a stale cached snapshot path (reduced to a snapshot, then rebuilt back)
+        emit_and_replay(ctx, "TreeLoadGen_stale.cfg", test_env={"VERIF_APPLY_EVERY": 5, "VERIF_HANDLER_EVERY": 0})
     # 3. random larger histories, byte limits around every cumulative boundary
     ctx.go_test("./treeorder", run="TestRandomLoad$", timeout=3000,
                 env={"VERIF_RUNS": 120 if thorough else 10, "VERIF_MAX_CHANGES": 24 if thorough else 14})
